@@ -1736,7 +1736,7 @@ pub fn run() {
     c.assume("conversion Err is judged only when every non-zero coefficient lies in [2^-800, 2^900]; conversions of values above 2^1000 are not judged");
     let t = c.tier;
     par_cases("directed-edges", 1, |r, i| directed("directed-edges", i, r));
-    let (ns, nd) = t.pick((150_000usize, 150_000usize), (1_500_000usize, 1_500_000usize));
+    let (ns, nd) = t.pick((150_000usize, 150_000usize), (12_000_000usize, 12_000_000usize));
     par_cases("scalar4-programs", ns, |r, i| scalar_program("scalar4-programs", i, r));
     par_cases("dyadic-programs", nd, |r, i| dyadic_program("dyadic-programs", i, r));
     c.extra("exhaustive", json!(false));
